@@ -12,8 +12,12 @@
               the whole graph (LocationStep.evalBackward 350-379,
               LocationPath.evalBackward 176-191).  Invariant BackwardAgrees.
 
-   Every TLC state with Len(q.steps) = L is one test case (graph, query); GenPrint
-   prints it as JSON for the replay into the real PackageSet (checks/c18_pathquery.py).
+   Every TLC state with Len(q.steps) = L is one test case (graph, query); it is printed
+   as JSON for the replay into the real PackageSet (checks/c18_pathquery.py).
+   Configs: PathQuery.cfg (quick: catalogue, <= 2 steps), PathQuery_thorough.cfg (catalogue,
+   <= 3 steps, larger predicate alphabet, every consistency condition as its own invariant),
+   PathQuery_dags.cfg (all 416 connected DAGs on 4 packages x provideDeps flags, small query
+   alphabet), PathQuery_reach_*.cfg (negated reachability, must be violated).
 
    Packages: 0 is the virtual root, 1..n the packages of graph G.  Package
    names and name tests are sequences of one-character strings (TLC cannot
@@ -377,8 +381,6 @@ PlainSmall == Plain(AxesSmall, TestsSmall, FALSE)
 PlainTiny  == {PlainStep("/", "", R), PlainStep("//", "", STAR), PlainStep("/", "descendant", ASTAR),
                PlainStep("/", "", STAR)}
 
-CarriersFull  == {<<"//", "", STAR>>, <<"/", "", ASTAR>>, <<"/", "descendant-or-self", STAR>>, <<"/", "self", STAR>>}
-CarriersSmall == {<<"//", "", STAR>>, <<"/", "", STAR>>, <<"/", "descendant-or-self", ASTAR>>}
 WithPred(carriers, preds) == {PredStep(c[1], c[2], c[3], p) : c \in carriers, p \in preds}
 
 \* alphabet of step i of a query with l steps whose predicate step is at position ppos
@@ -388,7 +390,8 @@ PS_q1   == IF Tier # 0 THEN {} ELSE WithPred({<<"//", "", STAR>>}, Level2) \cup 
                                        \cup WithPred({<<"/", "self", STAR>>, <<"//", "self", STAR>>}, NotCore)
 PS_q22  == WithPred({<<"/", "", STAR>>}, Atoms)
 PS_q21  == WithPred({<<"//", "", ASTAR>>}, NotCore)
-PS_t1   == IF Tier # 1 THEN {} ELSE WithPred(CarriersFull, Level3)
+PS_t1   == IF Tier # 1 THEN {} ELSE WithPred({<<"//", "", STAR>>, <<"/", "descendant-or-self", STAR>>}, Level3)
+                                       \cup WithPred({<<"/", "", ASTAR>>, <<"/", "self", STAR>>}, Level2)
 PS_t2   == IF Tier # 1 THEN {} ELSE WithPred({<<"//", "", STAR>>}, Level2) \cup WithPred({<<"/", "descendant-or-self", ASTAR>>}, Atoms)
 \* three-step queries: exact names (so that /x/y/z has short cuts to miss), //, one multi-hop and one direct axis
 Plain3  == {PlainStep("/", "", t) : t \in {STAR, R, A, AB, B}} \cup {PlainStep("//", "", t) : t \in {STAR, B, ASTAR}}
@@ -401,10 +404,11 @@ StepsAt(gid, l, ppos, i) ==
         [] Tier = 0 /\ l = 2 /\ ppos = 2 -> PS_q22
         [] Tier = 0                      -> PS_q21
         [] l = 1                         -> PS_t1
-        [] l = 2                         -> PS_t2
+        [] l = 2 /\ ppos = 2             -> PS_t2
+        [] l = 2                         -> PS_q21
         [] OTHER                         -> PS_q22)
   ELSE
-     (CASE ppos > 0 -> IF Tier = 0 /\ ppos = 2 THEN {PlainStep("//", "", STAR), PlainStep("/", "", STAR)} ELSE PlainTiny
+     (CASE ppos > 0 -> IF (Tier = 0 /\ ppos = 2) \/ (l = 3 /\ i = 1) THEN {PlainStep("//", "", STAR), PlainStep("/", "", STAR)} ELSE PlainTiny
         [] gen      -> IF l = 1 THEN PlainMed ELSE IF i = 1 THEN PlainTiny \cup {PlainStep("/", "direct-child", STAR), PlainStep("//", "", B)} ELSE PlainSmall
         [] l = 1    -> PlainFull
         [] l = 2    -> IF i = 1 THEN (IF Tier = 0 THEN PlainSmall ELSE PlainMed)
